@@ -1,7 +1,7 @@
 (* C13 — property theorems only.  Each is closed by [exact] of a lemma from proofs/C13_Proofs.v.
    offO/offD (tz database) and geod (WGS-84 inverse problem) are universally quantified oracles. *)
 From Coq Require Import ZArith List String Bool Sorted.
-From AV Require Import lib.Dates model.C13_Model proofs.C13_Proofs.
+From AV Require Import lib.Dates model.C13_Model model.C13_Parse proofs.C13_Proofs proofs.C13_ParseProofs.
 Import ListNotations.
 Open Scope Z_scope.
 
@@ -146,3 +146,50 @@ Example C13_nonvacuous :
   /\ expand 18261 18263 [2; 3; 4] = [18261; 18262; 18263]
   /\ expand 17965 17965 [7] = [17965] /\ expand 17965 17965 [1] = [].
 Proof. exact expand_nonvacuous. Qed.
+
+(* ---- the CSV conventions in front of the importer (model/C13_Parse.v) ---- *)
+
+(* a raw row in the plain grammar (digit strings, blank or numeric flight number, day-offset code or
+   digits, dates a marker or a possible calendar date) is never dropped as unparsable *)
+Theorem C13_plain_row_never_malformed :
+  forall offO offD geod fl excl year w ko kd o d,
+    plain_row w = true -> import_raw offO offD geod fl excl year w ko kd o d <> RMalformed.
+Proof. exact plain_row_never_malformed. Qed.
+Print Assumptions C13_plain_row_never_malformed.
+
+(* what the importer does with a parsed row it does with the raw row *)
+Theorem C13_raw_row_is_its_parse :
+  forall offO offD geod fl excl year w ko kd o d r fltno miles seats s,
+    parse_raw excl w = POk r fltno miles seats s ->
+    import_raw offO offD geod fl excl year w ko kd o d =
+    ROutcome fltno seats (import_row offO offD geod fl excl year r ko kd o d miles s).
+Proof. exact import_raw_of_parsed. Qed.
+Print Assumptions C13_raw_row_is_its_parse.
+
+(* a raw row is skipped only for a documented reason (evaluated on its own fields) *)
+Theorem C13_raw_row_skipped_only_for_documented_reason :
+  forall offO offD geod fl excl year w ko kd o d fltno seats k,
+    import_raw offO offD geod fl excl year w ko kd o d = ROutcome fltno seats (Skipped k) ->
+    exists r miles, reason_holds geod fl excl r ko kd o d miles k
+                    /\ c_carrier r = w_carrier w /\ c_service r = w_service w
+                    /\ c_operating r = w_operating w /\ c_genacft r = w_genacft w
+                    /\ py_int (w_stops w) = Some (c_stops r).
+Proof. exact raw_skipped_reason_holds. Qed.
+Print Assumptions C13_raw_row_skipped_only_for_documented_reason.
+
+Theorem C13_int_of_digit_string :
+  forall s, all_digits s = true -> exists n, py_int s = Some n /\ 0 <= n.
+Proof. exact py_int_all_digits. Qed.
+Print Assumptions C13_int_of_digit_string.
+
+Example C13_parse_nonvacuous :
+  parse_date "00000000" = Some None /\ parse_date "99999999" = Some None
+  /\ parse_date "20190115" = Some (Some (2019, 1, 15)) /\ parse_date "20190230" = None
+  /\ parse_date "20200229" = Some (Some (2020, 2, 29)) /\ parse_date "2019011" = None /\ parse_date "" = None
+  /\ parse_time "1730" = Some 1050 /\ parse_time "0000" = Some 0 /\ parse_time "17h0" = None
+  /\ parse_arrday "P" = Some (-1) /\ parse_arrday " " = Some 0 /\ parse_arrday "" = Some 0
+  /\ parse_arrday "2" = Some 2 /\ parse_arrday "X" = None
+  /\ parse_days " 2  5 7" = [2; 5; 7] /\ parse_days "" = [] /\ parse_days "1234567" = [1; 2; 3; 4; 5; 6; 7]
+  /\ py_int " 42 " = Some 42 /\ py_int "-7" = Some (-7) /\ py_int "+7" = Some 7 /\ py_int "" = None
+  /\ py_int "4 2" = None /\ py_int "0000235" = Some 235.
+Proof. exact parse_examples. Qed.
